@@ -26,6 +26,6 @@ func init() {
 		}, commonAssumptions...), Budget: budget,
 			Units: []Unit{Search{Sc: Evidence{Variant: "base"}, Depth: depth}},
 			MustSee: []string{"dv:valid=true,punishable=true,accepted=true", "dv:valid=false,punishable=false,accepted=false", "dv:valid=true,punishable=false,accepted=false",
-				"dv:unbonding-slashed", "dv:redelegation-slashed", "mb:equivocation(all):want=3,accepted=true", "mb:amnesia:want=0,accepted=false"}}
+				"dv:unbonding-slashed", "dv:redelegation-slashed", "mb:equivocation(all):want=3,accepted=true", "mb:amnesia:want=0,accepted=false", "dv:for-stopped-consumer"}}
 	})
 }
